@@ -10,7 +10,7 @@ import warnings
 
 from .common import Oracle, Suite, errname, merge
 
-GEN_UNITS = ["TotpSerial", "Totp", "PyUnicode"]
+GEN_UNITS = ["TotpSerial", "Totp", "PyUnicode", "TotpAll"]
 LEAN_TARGETS = ["PasslibVerif.Props.C15"]
 ASSUMPTIONS = [
     "json.loads / json.dumps are external: JSON documents enter the model as association lists of typed values (the text of to_json() is compared with json.dumps of the model's dict)",
